@@ -70,6 +70,8 @@ def _child_run(mod_name: str, seed: int, tier: str, opts: dict) -> dict:
             pass
         return res
     except BaseException as e:  # noqa
+        if type(e).__name__ == "CompileRaised":
+            return dict(seed=seed, status="skipped", detail="Graph() raised: " + str(e)[-600:], sums=dict(compile_raised=1), wall_s=time.time() - t0)
         return dict(seed=seed, status="harness_error", detail="".join(traceback.format_exception(None, e, e.__traceback__))[-3000:], wall_s=time.time() - t0)
     finally:
         faulthandler.cancel_dump_traceback_later()
